@@ -329,6 +329,32 @@ pub fn must_reject_targeted() -> Vec<(String, &'static str)> {
               "x 1 CH A 1.2.3.4", "x 1 IN OPT 0", "x 1 IN BOGUS 1"] {
         v.push((t.to_string(), "missing or surplus field / unsupported keyword"));
     }
+    // near-misses of every type keyword (one more or one fewer character, doubled, prefixed), each followed by
+    // data that is valid for the keyword it resembles, and near-misses of the class keyword
+    let kws: [(&str, &str); 9] = [("A", "1.2.3.4"), ("AAAA", "::1"), ("NS", "n.a"), ("CNAME", "n.a"), ("PTR", "n.a"), ("TXT", "\"t\""), ("MX", "10 m.a"), ("SOA", "a b ( 1 2 3 4 5 )"), ("DS", "1 2 3 00")];
+    let is_kw = |s: &str| kws.iter().any(|(k, _)| k.eq_ignore_ascii_case(s));
+    for (k, data) in kws.iter() {
+        let mut variants: Vec<String> = Vec::new();
+        for c in ["X", "S", "A", "1", "-", "_", "."] {
+            variants.push(format!("{}{}", k, c));
+            variants.push(format!("{}{}", c, k));
+        }
+        variants.push(format!("{}{}", k, k));
+        variants.push(format!("{}{}{}", k, k, k));
+        variants.push(format!("{}XXXXXXXXXXXXXXXXXXXX", k));
+        variants.push(k[..k.len() - 1].to_string());
+        variants.push(k[1..].to_string());
+        for var in variants {
+            if var.is_empty() || is_kw(&var) {
+                continue;
+            }
+            v.push((format!("x 1 IN {} {}", var, data), "near-miss of a type keyword"));
+            v.push((format!("x 1 IN {} {}", var.to_ascii_lowercase(), data), "near-miss of a type keyword"));
+        }
+        for cls in ["INX", "I", "N", "INN", "ININ", "IN1", "1IN", "XIN", "IN-", "CS", "HS", "ANY"] {
+            v.push((format!("x 1 {} {} {}", cls, k, data), "near-miss of the class keyword"));
+        }
+    }
     v
 }
 
